@@ -28,6 +28,12 @@ var (
 	// FsHook is called before every file-system effect; returning false
 	// suppresses the effect (the process has "crashed").
 	FsHook func(site, op, path string) bool
+	// TornHook, when it returns n >= 0 for a write effect that FsHook
+	// suppressed, makes the write leave the first n bytes behind (a torn
+	// write: the process died in the middle of it).
+	TornHook func() int
+	// PidHook overrides os.Getpid for code rewritten with the pid rewrite.
+	PidHook func() int
 
 	mu             sync.Mutex
 	UnorderedSites = map[string]int{}
@@ -137,9 +143,34 @@ func Effect(site, op, path string) bool { return fsOK(site, op, path) }
 
 func OsWriteFile(site, name string, data []byte, perm os.FileMode) error {
 	if !fsOK(site, "write", name) {
+		Torn(name, data, perm)
 		return nil
 	}
 	return os.WriteFile(name, data, perm)
+}
+
+// Torn performs the partial write of a suppressed write effect, if the
+// explorer asked for one.
+func Torn(name string, data []byte, perm os.FileMode) {
+	if h := TornHook; h != nil {
+		if n := h(); n >= 0 || n == -2 {
+			if n == -2 {
+				n = len(data) / 2
+			}
+			if n > len(data) {
+				n = len(data)
+			}
+			os.WriteFile(name, data[:n], perm)
+		}
+	}
+}
+
+// Getpid is os.Getpid unless the explorer overrides it.
+func Getpid() int {
+	if h := PidHook; h != nil {
+		return h()
+	}
+	return os.Getpid()
 }
 
 func OsRemove(site, name string) error {
